@@ -132,6 +132,19 @@ PROPS = {
         open=["conjunct reordering for FD atoms rests on the open global FD invariant (C16/C17); carried by the correspondence and the oracle",
               "lifting C04_tree from atom lists to conjunctions nested in conde/fresh uses the path decomposition, checked by the oracle only"],
     ),
+    "C09": dict(
+        title="query iteration: lazy, fused, deterministic",
+        props_module="PvModel.Props.C09",
+        rule="tree programs with several disequalities, search programs (half with an infinite producer and take(n)), FD programs; each run twice in "
+             "one process, under 3 forced iteration orders of the constraint store (permutation hook), to exhaustion + 3 further next() calls "
+             "(fused), with take(n) vs take(n+4) (lazy), and the whole harness again in fresh processes (fresh hash seeds: 2 in quick, 8 in "
+             "thorough) with byte-identical output required; the model is diffed with the first run; non-trivial = >=2 answers; distinct = "
+             "distinct case lines",
+        trusted=SEARCH_TRUST + ["that std's HashMap/HashSet iterate in SOME order per process is trusted; the model quantifies over all orders"],
+        assumptions=[],
+        open=["sequence-level order independence for arbitrary programs under different iteration orders (beyond the atom-level C09_order_independent_tree) is carried by the forced-order and multi-process runs"],
+        multi_process=dict(quick=2, thorough=8),
+    ),
     "C01": dict(
         title="unification (State::unify vs unifyF)",
         props_module="PvModel.Props.C01",
